@@ -584,6 +584,24 @@ func (m *c14Meta) Update(ctx context.Context, writes []bs.WriteOperation, delete
 			if fmt.Sprint(dels) != fmt.Sprint(h.merge.srcs) {
 				h.bad = append(h.bad, fmt.Sprintf("merge deletes %v, its scan found %v", dels, h.merge.srcs))
 			}
+			if len(writes) != 1 {
+				// not what a merge of one group does: the model has no such step
+				h.bad = append(h.bad, fmt.Sprintf("merge called Update with %d outputs and %d deletes", len(writes), len(deletes)))
+				if !h.fsMeta {
+					var nm []int
+					for _, x := range h.meta {
+						keep := true
+						for _, d := range dels {
+							keep = keep && x != d
+						}
+						if keep {
+							nm = append(nm, x)
+						}
+					}
+					h.meta = nm
+				}
+				return nil
+			}
 			labels := []string{"LMUpdate"}
 			out := h.fileOf(writes[0].FilePointerBytes)
 			if h.fsMeta {
@@ -657,6 +675,17 @@ func c14Plans() []c14Plan {
 				return []c14Hold{
 					{match: func(t *c14Task) bool { return t.actor == "merge" && t.kind == "update" }, until: func(s *c14Sched) bool { return s.count("q0:open") >= 2 }},
 					{match: func(t *c14Task) bool { return isQ(t) && t.kind == "open" && h.sched.count("q0:open") >= 2 }, until: func(s *c14Sched) bool { return s.count("merge:tomb") >= 4 }},
+				}
+			}},
+		{name: "query-after-commit-before-cleanup", initial: 10, queries: 1, merges: 1,
+			holds: func(h *c14Run) []c14Hold {
+				return []c14Hold{
+					// a merge of as many files as one operation takes; the query runs when the merge's MetaStore.Update
+					// has returned; whatever the merge does after that Update (cleanup) waits for the end of the query
+					{match: func(t *c14Task) bool { return isQ(t) }, until: func(s *c14Sched) bool { return s.count("merge:update") > 0 }},
+					{match: func(t *c14Task) bool {
+						return t.actor == "merge" && h.sched.count("merge:update") > 0
+					}, until: func(s *c14Sched) bool { return s.count("q0:end") > 0 }},
 				}
 			}},
 		{name: "flush-during-query", initial: 2, queries: 1, flushes: 2,
